@@ -50,6 +50,8 @@ pub enum Op {
     /// the oracle is moved so that the next funding settlement consumes about c x a holder's margin; the settlement follows at
     /// the funding time and (three times out of four) an owner operation on the drained position after it
     Drain { v: u8, t: u8, knob: u16 },
+    /// the engine's pauser role is handed to a trading account, or back
+    Handover { to: u8 },
 }
 
 #[derive(Clone, Debug, Serialize, Deserialize, PartialEq, Eq, Hash)]
@@ -88,6 +90,7 @@ pub struct Weights {
     pub balance: u32,
     pub burst: u32,
     pub drain: u32,
+    pub handover: u32,
 }
 
 impl Weights {
@@ -120,6 +123,7 @@ impl Weights {
             balance: 0,
             burst: 0,
             drain: 0,
+            handover: 0,
         }
     }
 }
@@ -338,6 +342,7 @@ pub fn op_strategy(w: &Weights) -> BoxedStrategy<Op> {
         (w.balance, 24),
         (w.burst, 25),
         (w.drain, 26),
+        (w.handover, 27),
     ]
     .into_iter()
     .filter(|(wt, _)| *wt > 0)
@@ -381,7 +386,8 @@ pub fn op_strategy(w: &Weights) -> BoxedStrategy<Op> {
                 23 => Op::EdgeClose { v, t, knob: k1 },
                 24 => Op::Balance { v, t },
                 25 => Op::Burst { v, who: s2, n: s1 },
-                _ => Op::Drain { v, t, knob: k1 },
+                26 => Op::Drain { v, t, knob: k1 },
+                _ => Op::Handover { to: s2 },
             }
         })
         .boxed()
